@@ -164,6 +164,12 @@ func c14Cfgs(tier string) []*histCfg {
 		return c
 	}
 	out := []*histCfg{mk("c14-hist/plain", 0, nil, depth), mk("c14-hist/init2", 2, nil, depth-1)}
+	{
+		// nested scopes created with a nil context (inheriting the parent scope's context)
+		c := mk("c14-hist/nilctx", 0, nil, depth-1)
+		c.CtxKinds = []string{"shared", "nil"}
+		out = append(out, c)
+	}
 	// disposables whose Close returns an error: the scope must be released all the same
 	for _, fail := range [][]string{{"r1#1.0", "r1#2.0", "r1#3.0"}, {"r2#1.0", "r2#2.0", "r2#3.0", "r2#4.0"}} {
 		c := mk("c14-hist/closefail-"+fail[0][:2], 0, nil, depth-1)
@@ -271,7 +277,7 @@ func c14Cycles(r *mc.Report) {
 func init() {
 	mc.Register(&mc.Check{
 		Prop:        "C14",
-		Rule:        "histories: every sequence to depth 5 (quick) / 6 (thorough) over {CreateScope(provider|scope) with ONE shared cancellable caller context that is never cancelled, 3 resolutions, Close(scope|provider)} on <=3 scopes, with 0 / 2 scope initializers, with 1-3 initializers one of which fails at every position (2nd / 3rd scope creation), and with scoped / transient disposables whose Close returns an error; at the end of each history: one waiting goroutine per open scope and none else (scheduler thread table), closed scopes have a cancelled context and are unreachable (reflective reachability incl. unexported fields) from the provider, their open parent and the caller's long-lived context, their instances are unreachable from the provider, failed creations left no unclosed instance. Cycles: 5 cycle shapes x 6 repetitions: objects reachable from the provider / from the caller context and live goroutines are constant from the second cycle on (the reachable state closes, hence bounded for any N). distinct = canonical observation strings.",
+		Rule:        "histories: every sequence to depth 5 (quick) / 6 (thorough) over {CreateScope(provider|scope) with ONE shared cancellable caller context that is never cancelled (nested scopes also with a nil context), 3 resolutions, Close(scope|provider)} on <=3 scopes, with 0 / 2 scope initializers, with 1-3 initializers one of which fails at every position (2nd / 3rd scope creation), and with scoped / transient disposables whose Close returns an error; at the end of each history: one waiting goroutine per open scope and none else (scheduler thread table), closed scopes have a cancelled context and are unreachable (reflective reachability incl. unexported fields) from the provider, their open parent and the caller's long-lived context, their instances are unreachable from the provider, failed creations left no unclosed instance. Cycles: 5 cycle shapes x 6 repetitions: objects reachable from the provider / from the caller context and live goroutines are constant from the second cycle on (the reachable state closes, hence bounded for any N). distinct = canonical observation strings.",
 		Assume:      []string{"reachability is computed by a reflective traversal that does not enter runtime type descriptors; goroutines are the scheduler's logical threads"},
 		MinOutcomes: 6,
 		Jobs: func(tier string) []mc.Job {
